@@ -81,6 +81,15 @@ def make_fault(rng, node, kind, files):
     if kind == "missing":
         del files[rel]
         return files, {}
+    if kind == "missing_dir":
+        # the whole directory the module lives in is gone (with everything below it); a top-level module just vanishes
+        d = os.path.dirname(rel)
+        removed = []
+        for k in list(files):
+            if k == rel or (d and (k.startswith(d + os.sep))):
+                removed.append(os.path.basename(k))
+                del files[k]
+        return files, {"dir": d, "removed": sorted(set(removed))}
     text = files[rel]
     toks = K.tokens(text)
     if kind == "syntax_token":
@@ -174,7 +183,7 @@ def judge(par, base: Path, files, root_rel, expect, logger_mode, path_style="abs
             v.append(("split_differs", "duplicates", f"duplicated entries after merging: {dup} (the single-file schema has {want_dup})"))
         return v, out
     # error expected
-    _, basename, extra, _kind = expect
+    basename, extra = expect[1], expect[2]
     if out == "ok":
         return [("fault_not_reported", expect[3], f"module {basename} is {expect[3]} but parsing returned a schema")], out
     txt, prob = par.render(res)
@@ -182,8 +191,10 @@ def judge(par, base: Path, files, root_rel, expect, logger_mode, path_style="abs
     v = []
     if prob is not None:
         v.append(("diagnostic_unrenderable", expect[3], prob))
-    if basename not in hay:
-        v.append(("error_does_not_name_module", expect[3], f"error for {expect[3]} module {basename} does not name it: "
+    alternatives = [basename] + list(expect[4] if len(expect) > 4 else [])
+    if not any(b in hay for b in alternatives):
+        v.append(("error_does_not_name_module", expect[3], f"error for {expect[3]} module {basename} does not name it"
+                                                         f"{' (nor any of ' + str(alternatives[1:]) + ')' if alternatives[1:] else ''}: "
                                                          f"{hay.strip()[:300]!r}"))
     if extra and extra not in hay:
         v.append(("error_does_not_name_type", expect[3], f"error does not name the unresolved type {extra}: {hay.strip()[:300]!r}"))
@@ -203,8 +214,8 @@ def mk(v, workload, run=None):
 _SINGLE_DUP = [{}]      # duplicate-name counts of the last single-file schema (a schema may legally repeat a device name)
 
 
-def single_cats(par, base: Path, root):
-    src = S.render(K.flatten(root))
+def single_cats(par, base: Path, root, style=0):
+    src = S.render(K.flatten(root), style)
     K.write_files(base, {"single.fcp": src})
     res = par.parse("file", base / "single.fcp", "fresh")
     if res["outcome"] != "ok":
@@ -228,7 +239,8 @@ def run_one(seed: int, index: int, tier: str) -> dict:
     logger_mode = stream(run_seed, "swarm").choice(["fresh", "shared", "default"])
     par = K.Parser()
     nodes = K.nodes_of(root)
-    files = K.tree_files(root)
+    style = stream(run_seed, "swarm3").randrange(8)
+    files = K.tree_files(root, style)
     shape = tree_shape(root)
     # probes
     bn = Counter(os.path.basename(n["file"]) for n, _ in nodes)
@@ -254,7 +266,7 @@ def run_one(seed: int, index: int, tier: str) -> dict:
                 probes["module_uses_grandchild_decl"] += 1
     with Scratch("c20") as base:
         try:
-            want, single_src = single_cats(par, base, root)
+            want, single_src = single_cats(par, base, root, style)
         except RuntimeError as e:
             res["harness_errors"].append(f"run {index}: {e}")
             res["digest"] = "x"
@@ -282,14 +294,16 @@ def run_one(seed: int, index: int, tier: str) -> dict:
         # one fault per module and kind
         k = 0
         for n, d in nodes[1:]:
-            for kind in ("missing", "syntax_token", "syntax_torn", "resolve"):
+            for kind in ("missing", "missing_dir", "syntax_token", "syntax_torn", "resolve"):
+                if kind == "missing_dir" and not os.path.dirname(n["file"]):
+                    continue
                 if len(res["violations"]) >= 4 or any(x["class"] == "hang" for x in res["violations"]):
                     break          # a broken tree must not spend the batch's budget on 20 s watchdog expiries
                 k += 1
                 ffiles, detail = make_fault(rf, n, kind, files)
                 sub = base / "tree" if inplace else base / f"t{k}"
                 bname = os.path.basename(n["file"])
-                v, out = judge(par, sub, ffiles, "main.fcp", ("names", bname, detail.get("type"), kind), logger_mode, path_style)
+                v, out = judge(par, sub, ffiles, "main.fcp", ("names", bname, detail.get("type"), kind, detail.get("removed", [])), logger_mode, path_style)
                 # what a replay must re-create in the same directory and process: the fault-free tree the run started
                 # with, then the two configurations before this one
                 hist = ([prev[0]] + [h for h in prev[-2:] if h is not prev[0]]) if inplace else []
@@ -304,6 +318,7 @@ def run_one(seed: int, index: int, tier: str) -> dict:
                     res["violations"].append(mk(x, {"tree": tree_json, "fault": {"file": n["file"], "kind": kind,
                                                                                   "text": ffiles.get(n["file"])},
                                                     "logger": logger_mode, "expect_type": detail.get("type"),
+                                                    "removed": detail.get("removed", []),
                                                     "history": hist, "path_style": path_style}, index))
         # the process has now parsed this tree many times: the fault-free tree must STILL equal the single-file schema
         if len(res["violations"]) < 4:
@@ -365,10 +380,15 @@ def check_workload(w):
             ff = dict(files)
             if f["kind"] == "missing":
                 ff.pop(f["file"], None)
+            elif f["kind"] == "missing_dir":
+                d_ = os.path.dirname(f["file"])
+                for k_ in list(ff):
+                    if k_ == f["file"] or (d_ and k_.startswith(d_ + os.sep)):
+                        del ff[k_]
             else:
                 ff[f["file"]] = f["text"]
             v, _ = judge(par, base / "t", ff, "main.fcp",
-                         ("names", os.path.basename(f["file"]), w.get("expect_type"), f["kind"]), w.get("logger", "fresh"),
+                         ("names", os.path.basename(f["file"]), w.get("expect_type"), f["kind"], w.get("removed", [])), w.get("logger", "fresh"),
                          w.get("path_style", "abs"))
         for x in v:
             out.append(mk(x, w))
